@@ -160,3 +160,302 @@ def run_batch_stream(ctx, n_cases):
             if stats["disagreements"] <= 3:
                 ctx.broken.append({"kind": "correspondence", "name": "trimesh-batch", "detail": {"field": f, "pattern": pattern, "mesh_ids": ids, "model": str(got), "real": str(real)}})
     return stats
+
+
+# --------------------------------------------------------------------------------------------------------------------
+# stream `trimesh-inside` (C12, C02, C16): the ray-casting inside test itself, Model/TrimeshInside.lean in IEEE double
+# --------------------------------------------------------------------------------------------------------------------
+LPOLY = np.array([[0, 0], [2, 0], [2, 1], [1, 1], [1, 2], [0, 2]], float)
+
+
+def l_body():
+    """L-shaped prism (non-convex, 20 faces): the L polygon fanned from its corner (0,0), extruded along z"""
+    n = len(LPOLY)
+    v = np.array([[x, y, z] for z in (0.0, 1.0) for x, y in LPOLY])
+    tris = [[0, k + 1, k] for k in range(1, n - 1)] + [[n, n + k, n + k + 1] for k in range(1, n - 1)]
+    for k in range(n):
+        k2 = (k + 1) % n
+        tris += [[k, k2, n + k2], [k, n + k2, n + k]]
+    return v[np.array(tris)]
+
+
+def hull_body(nps, npts):
+    import scipy.spatial
+
+    pts = nps.uniform(-1, 1, (npts, 3))
+    return pts[scipy.spatial.ConvexHull(pts).simplices]
+
+
+def random_rotation(nps):
+    q = nps.normal(size=4)
+    q /= np.linalg.norm(q)
+    w, x, y, z = q
+    return np.array([[1 - 2 * (y * y + z * z), 2 * (x * y - z * w), 2 * (x * z + y * w)],
+                     [2 * (x * y + z * w), 1 - 2 * (x * x + z * z), 2 * (y * z - x * w)],
+                     [2 * (x * z - y * w), 2 * (y * z + x * w), 1 - 2 * (x * x + y * y)]])
+
+
+def gen_inside_mesh(rng, nps):
+    """one closed body (faces array (m,3,3)) at a length scale 1e-9 .. 1e6, axis-aligned or rotated, shifted; `degen` bodies carry
+    extra zero-area faces (two equal corners / three collinear corners: zero normal, NaN projections), `point` bodies have all
+    corners at one position (mesh size 0: the branch without division), `slab` bodies are boxes 10^-7.5..10^-3.5 thin"""
+    kind = rng.choice(["box", "box", "slab", "tetra", "tetra", "hull", "hull", "hull", "lbody", "lbody", "degen", "point"])
+    if kind == "point" and rng.random() < 0.7:
+        kind = "box"
+    if kind == "box":
+        faces = box([rng.choice([0.5, 1.0, 1.5, 2.0, 3.0]) for _ in range(3)])
+    elif kind == "slab":  # thickness around the 1e-5 displacement of is_facet_inwards' check point and the 1e-7 touch tolerance
+        d = [1.0, rng.choice([0.5, 1.0, 2.0]), 10.0 ** float(nps.uniform(-7.5, -3.5))]
+        rng.shuffle(d)
+        faces = box(d)
+    elif kind == "tetra":
+        faces = nps.uniform(-1, 1, (4, 3))[TETRA4] if rng.random() < 0.7 else tetra(1.0)
+    elif kind == "hull":
+        faces = hull_body(nps, rng.choice([5, 6, 8, 12]))
+    elif kind == "lbody":
+        faces = l_body()
+    elif kind == "degen":
+        faces = box([1.0, 1.5, 2.0]) if rng.random() < 0.5 else tetra(1.0)
+        extra = []
+        for _ in range(rng.choice([1, 2, 2, 3])):
+            f = faces[rng.randrange(len(faces))]
+            if rng.random() < 0.5:
+                extra.append([f[0], f[0], f[1]])  # two equal corners
+            else:
+                extra.append([f[0], 0.5 * (f[0] + f[1]), f[1]])  # collinear corners
+        faces = np.concatenate([faces, np.array(extra)])
+    else:
+        faces = np.tile(nps.uniform(-1, 1, 3), (4, 3, 1))
+    rotated = kind in ("box", "lbody") and rng.random() < 0.4
+    if rotated:
+        faces = faces @ random_rotation(nps).T
+    sc = 10.0 ** rng.choice([-9, -6, -3, -1, 0, 0, 1, 3, 6]) * (1.0 if rng.random() < 0.5 else float(nps.uniform(0.3, 3.0)))
+    shift = rng.choice([0.0, 0.0, 1.0, 2.5, -7.0]) * np.array([rng.choice([0, 1, -1]) for _ in range(3)], float)
+    faces = (np.asarray(faces, float) + shift) * sc
+    if rng.random() < 0.3:  # face order and winding are irrelevant for the ray test: shuffle them
+        faces = faces[nps.permutation(len(faces))]
+        flip = nps.random(len(faces)) < 0.5
+        faces[flip] = faces[flip][:, [0, 2, 1]]
+    return kind + ("-rot" if rotated else ""), np.ascontiguousarray(faces), sc
+
+
+def gen_inside_observers(rng, nps, faces, k):
+    """k observers for one body, stratified; returns list of (category, point)"""
+    verts = faces.reshape(-1, 3)
+    lo, hi = verts.min(axis=0), verts.max(axis=0)
+    size = float((hi - lo).max())
+    cen = verts.mean(axis=0)
+    out = []
+
+    def face_point(kind):
+        f = faces[rng.randrange(len(faces))]
+        if kind == "vertex":
+            return f[rng.randrange(3)].copy(), f
+        if kind == "edge":
+            i = rng.randrange(3)
+            t = rng.choice([0.5, 0.25, float(nps.uniform(0, 1))])
+            return f[i] + t * (f[(i + 1) % 3] - f[i]), f
+        w = nps.dirichlet([1, 1, 1]) if rng.random() < 0.6 else np.array(rng.choice([[0.5, 0.25, 0.25], [0.25, 0.25, 0.5], [1 / 3, 1 / 3, 1 / 3]]))
+        return w @ f, f
+
+    for _ in range(k):
+        c = rng.choice(["inside", "outside", "bbox", "face", "edge", "vertex", "nearvertex", "lattice", "offsurf", "offsurf", "centre"])
+        if c == "inside":  # convex combination of a face point and the vertex mean (inside for the convex bodies)
+            p, _ = face_point("face")
+            p = cen + nps.uniform(0, 0.98) * (p - cen)
+        elif c == "outside":
+            d = nps.normal(size=3)
+            p = cen + d / np.linalg.norm(d) * size * 10 ** nps.uniform(0.3, 3)
+        elif c == "bbox":
+            p = lo + nps.uniform(-0.02, 1.02, 3) * (hi - lo)
+        elif c in ("face", "edge", "vertex"):
+            p, _ = face_point(c)
+        elif c == "nearvertex":  # around the 1e-8 distance (norm square 1e-16) at which the reference point is switched
+            p, _ = face_point("vertex")
+            d = nps.normal(size=3)
+            p = p + d / np.linalg.norm(d) * size * 10 ** nps.uniform(-9.5, -6.5)
+        elif c == "lattice":  # regular lattice aligned with the bounding box (box faces, L-body planes)
+            p = lo + np.array([rng.randrange(-1, 6) for _ in range(3)]) / 4.0 * (hi - lo)
+        elif c == "offsurf":
+            p, f = face_point(rng.choice(["face", "face", "edge", "vertex"]))
+            nrm = np.cross(f[1] - f[0], f[2] - f[0])
+            nn = np.linalg.norm(nrm)
+            if nn > 0:
+                mag = rng.choice([1e-12, 1e-12, 1e-7, 1e-8, 1e-6, 10 ** nps.uniform(-14, -4)])
+                p = p + rng.choice([-1, 1]) * mag * size * nrm / nn
+        else:
+            p = cen.copy()
+        out.append((c, np.asarray(p, float)))
+    return out
+
+
+def inside_margins(x, faces):
+    """relative distance of every decisive quantity of mask_inside_trimesh from its threshold, for one observer: the smallest
+    one tells whether a Boolean disagreement sits on a knife edge (then only a different summation order could explain it)"""
+    verts = faces.reshape(-1, 3)
+    lo, hi = verts.min(axis=0), verts.max(axis=0)
+    size = float((hi - lo).max())
+    eps = 1e-12 * size
+    m = [abs(x - (hi + eps)) / max(size, 1e-300), abs(x - (lo - eps)) / max(size, 1e-300)]
+    if size > 0:
+        start = (lo - size * np.array([12.0012345, 5.9923456, 6.9932109])) / size
+        f = faces / size
+        l1 = x / size
+        ref = np.where((np.sum((l1 - f[:, 2]) ** 2, axis=1) < 1e-16)[:, None], f[:, 1], f[:, 2])
+        nrm = np.cross(f[:, 0] - f[:, 2], f[:, 1] - f[:, 2])
+        with np.errstate(all="ignore"):
+            for l in (start, l1):
+                a = l - ref
+                terms = np.abs(a * nrm).sum(axis=1)
+                m.append(np.abs((a * nrm).sum(axis=1)) / np.maximum(terms, 1e-300))  # sign of proj
+            proj1 = (l1 - ref) * nrm
+            proj1 = proj1.sum(axis=1) / np.sqrt(np.sum((l1 - ref) ** 2, axis=1) * np.sum(nrm**2, axis=1))
+            m.append(np.abs(np.abs(proj1) - 1e-7) / 1e-7)
+            m.append(np.abs(np.sum((l1 - f[:, 2]) ** 2, axis=1) - 1e-16) / 1e-16)
+            d = l1 - start
+            for i, j in ((0, 1), (1, 2), (2, 0)):
+                cr = np.cross(f[:, i] - start, f[:, j] - start)
+                ar = (cr * d).sum(axis=1)
+                m.append(np.abs(ar) / np.maximum(np.abs(cr * d).sum(axis=1), 1e-300))  # sign of the area
+                m.append(np.abs(np.abs(ar) - 1e-12) / 1e-12)
+    return float(np.nanmin(np.concatenate([np.ravel(v) for v in m])))
+
+
+def run_inside_stream(ctx, n_cases):
+    """`mask_inside_trimesh(points[None], faces)` (bounding-box pre-filter, start point outside, division by the mesh size,
+    plane-crossing / touch / pass-through tests, parity) against Model/TrimeshInside.lean evaluated in IEEE double by the driver:
+    boxes, tetrahedra, convex hulls, an L-shaped body, bodies with extra zero-area faces, bodies collapsed to a point; axis-aligned
+    and rotated, at sizes 1e-9..1e6; observers inside / far outside / in the bounding box / on faces, edges, vertices / on a lattice
+    aligned with the bounding box / 1e-14..1e-4 sizes off the surface.  Exact Boolean comparison, NO exclusions: the functions
+    contain no reduction whose order numpy is free to choose (min/max are order-independent, `v_norm2` etc. add three terms
+    explicitly).  Also compared exactly: `mask_inside_enclosing_box`; `lines_end_in_trimesh` for lines between observers and for
+    lines laid through an edge point / a corner of the body (pass-through-boundary test); the start point and the test line the real
+    `mask_inside_trimesh` hands to `lines_end_in_trimesh` (recorded by wrapping that function; bit patterns); `is_facet_inwards`
+    for two facets per body in either winding (there `np.linalg.norm` / `mean` may round differently: a disagreement is excluded iff a decisive
+    quantity lies within 1e-13 relative of its threshold — counted); and the real function on all observers of a body at once
+    against its one-observer values (the model is a map over observers)."""
+    import magpylib._src.fields.field_BH_triangularmesh as mod
+
+    from corr.kern_family import enc
+
+    rng = ctx.rng
+    per_mesh = 12
+    lines, expect = [], []
+    stats = {"rows": 0, "meshes": 0, "kinds": {}, "categories": {}, "inside_true": 0, "box_true": 0, "lines_rows": 0, "lines_true": 0,
+             "inwards_rows": 0, "inwards_true": 0, "start_rows": 0, "scales": {}, "disagreements": 0, "knife_edge_excluded": 0,
+             "batch_vs_single_disagreements": 0}
+    recorded = []
+    real_lines_end = mod.lines_end_in_trimesh
+
+    def recorder(lns, fcs):
+        recorded.append(np.array(lns, dtype=float, copy=True))
+        return real_lines_end(lns, fcs)
+
+    # fixed first body: the unit tetrahedron of Lemmas/TrimeshInside.lean (`unitTetra`) with the three observers evaluated there
+    # in exact arithmetic (theorems unitTetra_quarter_inside, unitTetra_outside_in_box, unitTetra_edge_ray_outside — the last one is
+    # the witness of Props/C02 `trimesh_ray_test_misses_interior_point`: strictly inside, yet the real code answers "outside")
+    ut = np.array([[[0, 0, 0], [0, 1, 0], [1, 0, 0]], [[0, 0, 0], [1, 0, 0], [0, 0, 1]], [[1, 0, 0], [0, 1, 0], [0, 0, 1]], [[0, 0, 0], [0, 0, 1], [0, 1, 0]]], float)
+    ut_obs = [("inside", np.array([0.25, 0.25, 0.25])), ("bbox", np.array([0.6, 0.6, 0.6])), ("edge-ray", np.array([0.120012345, 0.059923456, 0.574932109]))]
+    ut_obs += [("lattice", np.array([i, j, k]) / 4.0) for i in (0, 1, 2) for j in (0, 1, 2) for k in (1, 3, 4)][: per_mesh - 3]
+    with np.errstate(all="ignore"):
+        stats["exact_evaluations_reproduce"] = [bool(mod.mask_inside_trimesh(p[None].copy(), ut.copy())[0]) for _, p in ut_obs[:3]] == [True, False, False]
+    first = True
+    while stats["rows"] < n_cases:
+        nps = np.random.default_rng(rng.randrange(2**31))
+        kind, faces, sc = gen_inside_mesh(rng, nps)
+        obs = gen_inside_observers(rng, nps, faces, per_mesh)
+        if first:
+            kind, faces, sc, obs, first = "unit-tetra", ut, 1.0, ut_obs, False
+        fenc = f"{len(faces)} {enc(faces)}"
+        stats["meshes"] += 1
+        stats["kinds"][kind] = stats["kinds"].get(kind, 0) + 1
+        dec = f"1e{int(np.floor(np.log10(sc) + 0.5)):+d}"
+        stats["scales"][dec] = stats["scales"].get(dec, 0) + 1
+        singles = []
+        with np.errstate(all="ignore"):
+            for cat, p in obs:
+                real = bool(mod.mask_inside_trimesh(p[None].copy(), faces.copy())[0])
+                realbox = bool(mod.mask_inside_enclosing_box(p[None].copy(), faces.reshape(-1, 3).copy())[0])
+                singles.append(real)
+                lines.append(f"trimesh inside {fenc} {enc(p)}")
+                expect.append(("inside", real, kind, cat, faces, p))
+                lines.append(f"trimesh box {fenc} {enc(p)}")
+                expect.append(("box", realbox, kind, cat, faces, p))
+                stats["rows"] += 1
+                stats["categories"][cat] = stats["categories"].get(cat, 0) + 1
+                stats["inside_true"] += real
+                stats["box_true"] += realbox
+            allp = np.array([p for _, p in obs])
+            # the batch call, with the real lines_end_in_trimesh wrapped so that the test lines it receives are seen
+            del recorded[:]
+            mod.lines_end_in_trimesh = recorder
+            try:
+                batch = [bool(b) for b in mod.mask_inside_trimesh(allp.copy(), faces.copy())]
+            finally:
+                mod.lines_end_in_trimesh = real_lines_end
+        if batch != singles:
+            stats["batch_vs_single_disagreements"] += 1
+            if stats["batch_vs_single_disagreements"] <= 2:
+                ctx.broken.append({"kind": "correspondence", "name": "trimesh-inside", "detail": {"what": "real mask_inside_trimesh on a batch differs from one observer at a time",
+                                   "kind": kind, "faces": faces.tolist(), "points": allp.tolist(), "batch": batch, "single": singles}})
+        if len(recorded) == 1 and len(recorded[0]) > 0:
+            tl = recorded[0]
+            lines.append(f"trimesh start {fenc}")
+            expect.append(("start", enc(tl[0, 0]), kind, "start", faces, tl[0, 0]))
+            stats["start_rows"] += 1
+            inbox = [p for (_, p), b in zip(obs, [bool(b) for b in mod.mask_inside_enclosing_box(allp, faces.reshape(-1, 3))]) if b]
+            if len(inbox) != len(tl) or any(enc(a) != enc(b) for a, b in zip(inbox, tl[:, 1])) or any(enc(r) != enc(tl[0, 0]) for r in tl[:, 0]):
+                stats["disagreements"] += 1
+                ctx.broken.append({"kind": "correspondence", "name": "trimesh-inside", "detail": {"what": "test lines handed to lines_end_in_trimesh are not (start, point in box)", "kind": kind}})
+        # lines_end_in_trimesh directly: between two observers; through an edge point; through a corner
+        verts = faces.reshape(-1, 3)
+        f = faces[rng.randrange(len(faces))]
+        pe = f[0] + rng.choice([0.5, 0.25, float(nps.uniform(0, 1))]) * (f[1] - f[0])
+        pv = f[2]
+        size = float(np.ptp(verts, axis=0).max())
+        far = verts.mean(axis=0) + nps.normal(size=3) * (3 * size + (size == 0))
+        for l0, l1 in ((obs[0][1], obs[1][1]), (pe + (pe - far), far), (far, pe + (pe - far)), (pv + 2 * (pv - far), far), (far, obs[2][1])):
+            ln = np.array([[l0, l1]])
+            with np.errstate(all="ignore"):
+                rl = bool(mod.lines_end_in_trimesh(ln.copy(), faces.copy())[0])
+            lines.append(f"trimesh lines {fenc} {enc(l0)} {enc(l1)}")
+            expect.append(("lines", rl, kind, "line", faces, l1))
+            stats["lines_rows"] += 1
+            stats["lines_true"] += rl
+        # is_facet_inwards for two facets, each in the given or the opposite winding (slabs: the large facets, whose check point
+        # lands inside, beyond the other side, or within the touch tolerance of it, depending on the thickness)
+        areas = np.linalg.norm(np.cross(faces[:, 1] - faces[:, 0], faces[:, 2] - faces[:, 0]), axis=1)
+        cand = [i for i in range(len(faces)) if areas[i] >= 0.5 * areas.max()] if kind == "slab" else list(range(len(faces)))
+        for _ in range(2):
+            f = faces[rng.choice(cand)].copy()
+            if rng.random() < 0.5:
+                f = f[[0, 2, 1]]
+            with np.errstate(all="ignore"):
+                ri = bool(mod.is_facet_inwards(f.copy(), faces.copy()))
+                o = np.cross(f[0] - f[1], f[1] - f[2])
+                chk = f.mean(axis=0) + o / np.linalg.norm(o) * 1e-5 * np.linalg.norm(f[0] - f[1])
+            lines.append(f"trimesh inwards {enc(f)} {fenc}")
+            expect.append(("inwards", ri, kind, "facet", faces, chk))
+            stats["inwards_rows"] += 1
+            stats["inwards_true"] += ri
+    out = run_driver(lines)
+    samples = []
+    for o, (what, real, kind, cat, faces, p) in zip(out, expect):
+        want = real if what == "start" else ("true" if real else "false")
+        if o.strip() == want:
+            if what == "inside" and len(samples) < 2 and real:
+                samples.append({"kind": kind, "category": cat, "point": p.tolist(), "inside": real})
+            continue
+        margin = None
+        if what == "inwards":
+            with np.errstate(all="ignore"):
+                margin = inside_margins(p, faces)
+            if not margin >= 1e-13:
+                stats["knife_edge_excluded"] += 1
+                continue
+        stats["disagreements"] += 1
+        if stats["disagreements"] <= 3:
+            ctx.broken.append({"kind": "correspondence", "name": "trimesh-inside", "detail": {"function": what, "kind": kind, "category": cat, "model": o, "real": want,
+                               "min_relative_margin": margin, "faces": faces.tolist(), "point": p.tolist()}})
+    stats["samples"] = samples
+    return stats
